@@ -312,6 +312,22 @@ def run_unit(u, desc, tier, seed):
             if not (r1.iszero() and r2.iszero()) and worst is None:
                 worst = (R, [str(x) for x in t])
             resid += [r1, r2]
+        if nob < 6:
+            # the same law with disper=None (a separate branch of the code)
+            r0 = Fcalc(h, at, None)
+            resid0 = []
+            seen0 = set()
+            for R, t in rows:
+                hR = tuple(sum(h[i] * R[i][j] for i in range(3)) for j in range(3))
+                ht = sum(Fraction(h[i]) * t[i] for i in range(3))
+                if (hR, ht % 1) in seen0 or max(abs(x) for x in hR) > 6:
+                    continue
+                seen0.add((hR, ht % 1))
+                f2 = Fcalc(hR, at, None)
+                ct, st_ = phase_const(h, t)
+                resid0 += [f2[0] - (r0[0] * ct + r0[1] * st_), f2[1] - (r0[1] * ct - r0[0] * st_)]
+            u.prove('C07/%s/%s/covariance[no dispersion]' % (sgname, adp), pre, C.resid_goal(zc, resid0), replay=mk_rp('cov0', h),
+                    detail='F(hR) = F(h).exp(-2 pi i h.t) with disper=None at h=%s (%d non-zero residuals)' % (list(h), C.nz_count(resid0)), timeout=30)
         u.prove('C07/%s/%s/covariance' % (sgname, adp), pre, C.resid_goal(zc, resid), replay=mk_rp('cov', h, worst),
                 detail='F(hR) = F(h).exp(-2 pi i h.t) for all %d operations at h=%s (%d non-zero residuals)' % (len(rows), list(h), C.nz_count(resid)),
                 sample=(nob == 0), timeout=30)
@@ -345,6 +361,34 @@ def run_unit(u, desc, tier, seed):
             a1, a2, a3 = Fcalc(h), Fcalc(h, at2), Fcalc(h, at3)
             u.prove('C08/%s/%s/lattice-shift' % (sgname, adp), pre, C.resid_goal(zc, [a1[0] - a2[0], a1[1] - a2[1]]), replay=mk_rp('shift', h), detail='x -> x+(1,-2,3) at h=%s' % (list(h),))
             u.prove('C08/%s/%s/linear-in-occupancy' % (sgname, adp), pre, C.resid_goal(zc, [a1[0] - v('o') * a3[0], a1[1] - v('o') * a3[1]]), replay=mk_rp('occ', h), detail='F(o) = o.F(1) at h=%s' % (list(h),))
+        if adp is not None:
+            # additivity over a mixed atom list: atom A (this unit's ADP type) followed by atom B without ADP
+            atB = Atom()
+            atB.__dict__.update(at.__dict__)
+            atB.pos = [at.pos[0] + Fraction(1, 4), at.pos[1], at.pos[2] + Fraction(1, 2)]
+            atB.adp_type, atB.adp = None, 0.0
+            atB2 = Atom()
+            atB2.__dict__.update(atB.__dict__)
+            for h in hs[1:5]:
+                pool.used.clear()
+                pool.args.clear()
+                cache.clear()
+                old = SYMNP.exp_pool
+                SYMNP.exp_pool = pool
+                try:
+                    with patched(structure, tools):
+                        o_s, o_c = tools.sintl, tools.cell_invert
+                        tools.sintl, tools.cell_invert = sintl_summary, cell_invert_summary
+                        try:
+                            both = structure.StructureFactor(list(h), cell_token, sgname, [at, atB], disper)
+                            atB.adp_type, atB.adp = None, 0.0
+                        finally:
+                            tools.sintl, tools.cell_invert = o_s, o_c
+                finally:
+                    SYMNP.exp_pool = old
+                a1, a2 = Fcalc(h), Fcalc(h, atB2)
+                u.prove('C08/%s/%s/additive-over-atoms' % (sgname, adp), pre, C.resid_goal(zc, [lift(both[0]) - a1[0] - a2[0], lift(both[1]) - a1[1] - a2[1]]),
+                        replay=mk_rp('twoatom', h), detail='F([A(%s), B(no ADP)]) = F([A]) + F([B]) at h=%s' % (adp, list(h)))
         if adp is None:
             pool.used.clear()
             pool.args.clear()
@@ -453,6 +497,28 @@ def numeric(rec, tol=1e-6):
     scale = 26.0
     try:
         F = complex(*real_F(rec, h))
+        if kind == 'cov0':
+            F0 = complex(*real_F(rec, h, disp=False))
+            worst, wtxt = 0, ''
+            for R, t in zip(rot, trans):
+                hR = [int(round(x)) for x in np.dot(h, R)]
+                t24 = np.round(t * 24) / 24
+                F2 = complex(*real_F(rec, hR, disp=False))
+                want = F0 * np.exp(-2j * math.pi * np.dot(h, t24))
+                if abs(F2 - want) > worst:
+                    worst, wtxt = abs(F2 - want), 'no dispersion, op R=%s t=%s: F(hR=%s)=%s expected %s' % (R.tolist(), t.tolist(), hR, F2, want)
+            return worst > tol * scale + 1e-4, wtxt
+        if kind == 'twoatom':
+            from xfab import structure as st_
+            cellx = cell
+            a1 = real_atoms(rec)
+            a2 = real_atoms(rec, pos=[rec['pos'][0] + 0.25, rec['pos'][1], rec['pos'][2] + 0.5], adp_override=(None, 0.0))
+            d = {'FE': [rec['fp'], rec['fpp']]}
+            both = st_.StructureFactor(list(h), cellx, rec['sg'], list(a1) + list(a2), d)
+            one = st_.StructureFactor(list(h), cellx, rec['sg'], list(a1), d)
+            two = st_.StructureFactor(list(h), cellx, rec['sg'], list(real_atoms(rec, pos=[rec['pos'][0] + 0.25, rec['pos'][1], rec['pos'][2] + 0.5], adp_override=(None, 0.0))), d)
+            dif = abs(complex(*both) - complex(*one) - complex(*two))
+            return dif > tol * scale, 'F([A,B])=%s but F([A])+F([B])=%s' % (complex(*both), complex(*one) + complex(*two))
         if kind in ('cov', 'ext'):
             worst = 0
             wtxt = ''
